@@ -231,6 +231,34 @@ fn main() {
                 println!("{}", j);
             }
         }
+        "replay-prog" => {
+            // generic spec -> impl replay: {prog, doc, expect:{kind,file,rules}} per line
+            let cases: Vec<String> = std::fs::read_to_string(m.get("cases").expect("--cases")).unwrap().lines().map(|l| l.to_string()).collect();
+            let out = m.get("out").expect("--out").clone();
+            let mut f = std::io::BufWriter::new(std::fs::File::create(&out).unwrap());
+            let mut nm = 0;
+            let mut kinds: HashMap<String, usize> = HashMap::new();
+            for l in &cases {
+                let c: J = serde_json::from_str(l).unwrap();
+                let rules = render::render_file(&c["prog"]);
+                let data = val::to_json_text(&c["doc"]);
+                let obs = exec::observe(&rules, &data, false);
+                *kinds.entry(obs["kind"].as_str().unwrap_or("?").to_string()).or_insert(0) += 1;
+                let e = &c["expect"];
+                let same = if e["kind"] == "ok" {
+                    obs["kind"] == "ok" && obs["file"] == e["file"] && obs["rules"] == e["rules"]
+                } else {
+                    obs["kind"] == "err"
+                };
+                if !same {
+                    nm += 1;
+                    let mut o = obs.clone();
+                    if let Some(m) = o.as_object_mut() { m.remove("tree"); }
+                    writeln!(f, "{}", json!({"kind":"spec-vs-impl","prog":c["prog"],"doc":c["doc"],"rules_text":rules,"data_text":data,"expected":e,"observed":o})).unwrap();
+                }
+            }
+            println!("{}", json!({"cases": cases.len(), "evaluations": cases.len(), "mismatches": nm, "kinds": kinds}));
+        }
         "replay-cnf" => {
             let tables: J = serde_json::from_str(&std::fs::read_to_string(m.get("tables").expect("--tables")).unwrap()).unwrap();
             let cases: Vec<String> = std::fs::read_to_string(m.get("cases").expect("--cases")).unwrap().lines().map(|l| l.to_string()).collect();
